@@ -5,7 +5,7 @@
    universally quantified. *)
 From Coq Require Import ZArith NArith List Bool.
 From NV Require Import Common.Outcome Lang.Types Lang.Types_proofs Lang.Pattern Lang.PatternSpec Lang.Store
-  Lang.Pattern_proofs Lang.Pattern_proofs2 Lang.Pattern_proofs3 Lang.Store_proofs.
+  Lang.Pattern_proofs Lang.Pattern_proofs2 Lang.Pattern_proofs3 Lang.Store_proofs Lang.Pattern_inverts.
 Import ListNotations.
 
 (* binding a value to a pattern never panics, whatever the pattern, value, mode and store:
@@ -88,6 +88,39 @@ Theorem C12_literal_or_and : forall (sat : N -> val -> outcome bool) (inexact : 
     andthen (assign sat inexact fuel a rt v s) (assign sat inexact fuel b rt v).
 Proof. intros. split; [apply assign_lit|split; reflexivity]. Qed.
 Print Assumptions C12_literal_or_and.
+
+(* ---- a match inverts its pattern.  In a declaring context (switch, catch, parameters, for, :=;
+   rt = Some t) a successful match only ADDS bindings, and under the final bindings (or any
+   extension of them) the pattern read backwards denotes the matched value: PatternSpec.recon -
+   a name denotes its binding, a literal anything == to it, a sequence pattern a sequence whose
+   elements are denoted item by item with the splat's list spliced in, `and` both sides, `or`
+   one side, a struct pattern an instance with the denoted fields, an operator pattern a value
+   whose destructuring is denoted by the operands.  (Patterns without defaults: a default that
+   fills a missing item is not part of the value; see C12_seq_defaults.) *)
+Theorem C12_match_inverts : forall (sat : N -> val -> outcome bool) (inexact : iop -> num -> num -> num)
+  fuel p t v s s',
+  assign sat inexact fuel p (Some t) v s = (s', Ok tt) -> nodef p = true ->
+  extends s s' /\ forall s'', extends s' s'' -> recon inexact fuel s'' p v.
+Proof. exact match_inverts. Qed.
+Print Assumptions C12_match_inverts.
+
+(* ... and destructuring is the inverse of the operator: n + k (integers), k * n (integers), -x,
+   a / b (every exact number), h .+ t and xs +. x (lists) *)
+Theorem C12_destructure_inverts : forall (inexact : iop -> num -> num -> num),
+  (forall r a res, destructure inexact BPlus (VNum (NInt r)) [None; Some (VNum (NInt a))] = Ok res ->
+     exists z, res = [vint z; vint a] /\ (0 <= z)%Z /\ num_add inexact (NInt z) (NInt a) = NInt r) /\
+  (forall r a res, destructure inexact BTimes (VNum (NInt r)) [Some (VNum (NInt a)); None] = Ok res ->
+     exists z, res = [vint a; vint z] /\ num_mul inexact (NInt a) (NInt z) = NInt r) /\
+  (forall x k res, destructure inexact BMinus (VNum x) [k] = Ok res ->
+     exists y, res = [VNum y] /\ num_neg y = x) /\
+  (forall x ks res, destructure inexact BDivide (VNum x) ks = Ok res ->
+     exists n d, res = [vint n; vint (Zpos d)] /\ num_eq (num_div inexact (NInt n) (NInt (Zpos d))) x = true) /\
+  (forall l ks res, destructure inexact BPrepend (VList l) ks = Ok res ->
+     exists h t, res = [h; t] /\ prepend h t = Ok (VList l)) /\
+  (forall l ks res, destructure inexact BAppend (VList l) ks = Ok res ->
+     exists i x, res = [i; x] /\ append i x = Ok (VList l)).
+Proof. exact destructure_inverts. Qed.
+Print Assumptions C12_destructure_inverts.
 
 (* ---- switch / catch *)
 Theorem C12_switch_first_match : forall (sat : N -> val -> outcome bool) (inexact : iop -> num -> num -> num)
@@ -174,3 +207,11 @@ Example C12_nonvacuous :
   switch sat_none inexact_nan [PLit (vint 1); PSeq [PVar 0; PVar 1] false; PWild] (VList [vint 3; vint 4]) =
     Ok (1%nat, [(1%N, (TAny, vint 4)); (0%N, (TAny, vint 3))]).
 Proof. repeat split; vm_compute; reflexivity. Qed.
+
+(* match_inverts is not vacuous: `[a, ...b] and c` against [1, 2, 3] *)
+Example C12_nonvacuous_inverts :
+  exists s', assign_top sat_none inexact_nan (PAnd (PSeq [PVar 0; PSplat (PVar 1)] true) (PVar 2)) (Some TAny)
+               (VList [vint 1; vint 2; vint 3]) [] = (s', Ok tt) /\
+    lookup s' 0%N = Some (TAny, vint 1) /\ lookup s' 1%N = Some (TAny, VList [vint 2; vint 3]) /\
+    lookup s' 2%N = Some (TAny, VList [vint 1; vint 2; vint 3]).
+Proof. eexists. vm_compute. repeat split; reflexivity. Qed.
